@@ -1,0 +1,87 @@
+//go:build verif
+
+package nitro
+
+import (
+	"math/rand"
+	"sync/atomic"
+	"unsafe"
+
+	"github.com/couchbase/nitro/skiplist"
+)
+
+// Yield points used by the verification harness (build tag verif).
+const (
+	vpOpenLoad = iota + 101
+	vpOpenCas
+	vpCloseDec
+	vpCloseRetire
+	vpCloseGC
+	vpGCTryLock
+	vpGCUnlock
+	vpCollectRead
+	vpCollectSend
+	vpDelNodePhys
+	vpDelNodeCas
+	vpDelNodeFlush
+	vpWorkerRecv
+	vpWorkerNode
+	vpWorkerFlush
+	vpWorkerDone
+	vpFreeRecv
+	vpFreeDone
+	vpPutInsert
+	vpStoreFs
+	vpFileWrite
+	vpFileFlush
+	vpFileClose
+)
+
+// VerifHook is called before every instrumented step of package nitro.
+var VerifHook func(point int, obj unsafe.Pointer)
+
+func verifYield(point int, obj unsafe.Pointer) {
+	if h := VerifHook; h != nil {
+		h(point, obj)
+	}
+}
+
+// VerifStore exposes the main skiplist.
+func (m *Nitro) VerifStore() *skiplist.Skiplist { return m.store }
+
+// VerifNewItem allocates an item holding data (Go memory).
+func (m *Nitro) VerifNewItem(data []byte) *Item { return m.newItem(data, false) }
+
+// VerifNewFileWriter / VerifNewFileReader expose the backup file codec.
+func (m *Nitro) VerifNewFileWriter() FileWriter { return m.newFileWriter(RawdbFile) }
+func (m *Nitro) VerifNewFileReader(ver int) FileReader {
+	return m.newFileReader(RawdbFile, ver)
+}
+
+// VerifItemSn exposes the version interval of an item.
+func VerifItemSn(itm *Item) (bornSn, deadSn uint32) {
+	return itm.bornSn, atomic.LoadUint32(&itm.deadSn)
+}
+
+// VerifSnapshot exposes a snapshot's number and reference count.
+func (s *Snapshot) VerifSnapshot() (sn uint32, refCount int32) {
+	return s.sn, atomic.LoadInt32(&s.refCount)
+}
+
+// VerifSetRand replaces a writer's level generator source.
+func (w *Writer) VerifSetRand(src rand.Source) { w.rand = rand.New(src) }
+
+// VerifGCState exposes the collector's state.
+func (m *Nitro) VerifGCState() (isGCRunning int32, lastGCSn uint32, gcchanLen, freechanLen, retired int) {
+	return atomic.LoadInt32(&m.isGCRunning), atomic.LoadUint32(&m.lastGCSn), len(m.gcchan), len(m.freechan),
+		int(m.gcsnapshots.GetStats().NodeCount)
+}
+
+// VerifGarbage returns the number of nodes on a writer's pending garbage list.
+func (w *Writer) VerifGarbage() int {
+	c := 0
+	for n := w.gchead; n != nil; n = n.GetLink() {
+		c++
+	}
+	return c
+}
